@@ -10,7 +10,7 @@ import (
 //   O1 a receipt already present for the decoded triple => error and nothing written
 //   O2 nil => the receipt was absent before and is present afterwards under the decoded triple
 func VerifC01RecvStep() {
-	w := newWorld(2)
+	w := newWorld(2 + rt.Tier())
 	msg := &types.MsgRecvPacket{Packet: rt.Bytes("packetBytes"), ProofCommitment: rt.Bytes("proof"),
 		ProofHeight: clienttypes.Height{RevisionNumber: rt.U64("rev"), RevisionHeight: rt.U64("height")}, Signer: rt.Str("signer")}
 	var decoded types.Packet
@@ -36,7 +36,7 @@ func VerifC01RecvStep() {
 // VerifC01TwoMessages: two different messages (bytes, proof, height, signer all unrelated) that decode to the same
 // triple: after the first is accepted the second is rejected (exactly-once across re-encodings).
 func VerifC01TwoMessages() {
-	w := newWorld(2)
+	w := newWorld(2 + rt.Tier())
 	m1 := &types.MsgRecvPacket{Packet: rt.Bytes("packetBytes1"), ProofCommitment: rt.Bytes("proof1"),
 		ProofHeight: clienttypes.Height{RevisionNumber: rt.U64("rev1"), RevisionHeight: rt.U64("height1")}, Signer: rt.Str("signer1")}
 	m2 := &types.MsgRecvPacket{Packet: rt.Bytes("packetBytes2"), ProofCommitment: rt.Bytes("proof2"),
